@@ -19,6 +19,15 @@ CLAIMS = {
             'trusted: the recording stub (stubs/recorder.c), GNU make 4.3 and dash as the downstream interpreters; '
             'command words that sh classifies as builtins are excluded at run time',
             'DESIGN.md §6 C01'),
+    'C02': ('exploration',
+            'bounded exhaustive string x position enumeration; manifest evaluated by a reference Ninja evaluator (refninja), commands run by the real /bin/sh against a recording stub toolchain',
+            'Same string space and positions as C01 with --backend=ninja. Ninja is not installed, so the generated '
+            'build.ninja is evaluated by refninja, an implementation of the manifest semantics of the Ninja manual '
+            '(DESIGN.md Appendix A); the evaluated command lines are run by the real /bin/sh -c, exactly as Ninja '
+            'does, and the stub toolchain records what each process received; oracle = identity.',
+            'trusted: refninja (models/refninja/ninja) as the meaning of the Ninja manifest language, the recording '
+            'stub, dash',
+            'DESIGN.md §6 C02, Appendix A'),
     'C12': ('exploration',
             'bounded exhaustive input-space enumeration + closure exploration on the real Path classes, posixpath/ntpath reference',
             'Every path string of <=3 (quick) / <=4 (thorough) components over a class-representative component '
